@@ -1507,6 +1507,9 @@ def check_C19(ctx):
 
 def check_C11(ctx):
     build()
+    # design: a crash inside any critical section of the page-ownership model, recovery = rebuild from the durable commit
+    tlc_check(ctx, "PagerCrash", "MC_PagerCrash.cfg", workers=8, timeout=3600)
+    tlc_expect_violation(ctx, "PagerCrash", "MC_PagerCrash_bad.cfg", "Owner1", workers=4)
     st = run_crash(ctx, tiered(ctx, 10, 50), tiered(ctx, 140, 250), extra=["--second-every", str(tiered(ctx, 31, 11))])
     run_kv_walk(ctx, "reopen", tiered(ctx, 24, 240), tiered(ctx, 500, 1500), page_sizes="512,1024,4096", caches="1048576,0")
     run_kv_walk(ctx, "reopen", tiered(ctx, 6, 60), 800, page_sizes="512", caches="1048576", tag="reopen-regions", extra=["--region-size", "65536"], nkeys=200)
@@ -1517,7 +1520,10 @@ def check_C11(ctx):
     ctx.assumptions += ["crash images per the storage model of C01; the accounting of the recovered database is taken on a sample of the images "
                         "(every 31st in quick, every 7th in thorough), check_integrity() on all of them"]
     return dict(level="fault_enumeration", exhaustive=False,
-                rule="every way of stopping a history (clean close; crash at every backend operation under 1PC / 2PC / quick-repair commits, with "
+                rule="design: PagerCrash.tla = Pager.tla plus a crash inside any critical section, recovery rebuilding the allocator "
+                     "state from the durable commit's trees and pending-free tables: Owner1 / Pinned / AllocRecordsOk / DurableIntact in the "
+                     "recovered state and everything reachable from it (811 590 states); the variant that forgets the pending-free "
+                     "tables is caught. code: every way of stopping a history (clean close; crash at every backend operation under 1PC / 2PC / quick-repair commits, with "
                      "the crash images of C01; crash again during recovery) followed by an open: the recovered database must pass "
                      "check_integrity() with Ok(true) and unchanged contents (every image); on sampled images the allocator state right after the "
                      "open is projected and TLC requires alloc = exactly the pages owned by trees and pending-free records (Owner1 of "
